@@ -298,6 +298,30 @@ func (tn *Town) body(p *TPost) (content string, mediaType string) {
 			fmt.Fprintf(&b, "<weird attr=\"%s\">x %s</weird>", ref, ref)
 		}
 	}
+	if tn.Opts.Hostile && t.Chance(1, 3) {
+		// raw control characters where the markup's own syntax is: inside tag and attribute names,
+		// closing tags, comments, doctype and processing instructions, unquoted values
+		bit := hostileBits[t.Draw(len(hostileBits))]
+		switch t.Draw(8) {
+		case 0:
+			fmt.Fprintf(&b, "<b%s>bold</b>", bit)
+		case 1:
+			fmt.Fprintf(&b, "<x%sy z=1>unknown</x%sy>", bit, bit)
+		case 2:
+			fmt.Fprintf(&b, "<span da%sta=\"v\">attr name</span>", bit)
+		case 3:
+			fmt.Fprintf(&b, "<p>closing</p%s>", bit)
+		case 4:
+			fmt.Fprintf(&b, "<!-- %s --><!DOCTYPE %s><?pi %s?>", bit, bit, bit)
+		case 5:
+			fmt.Fprintf(&b, "<a href=https://media.example/u%s>unquoted</a>", bit)
+		case 6:
+			fmt.Fprintf(&b, "<%s>lone</%s>", bit, bit)
+		case 7:
+			fmt.Fprintf(&b, "<em/%s/>slash</em>", bit)
+		}
+		tn.f.r.S.Probe("town_control_characters_in_markup_syntax")
+	}
 	return b.String(), ""
 }
 
